@@ -3,9 +3,8 @@ import GotranxModel.Validate
 /-!
 # `Impl`: the generators of `codegen/base.py` and `schemes.py`, as coded
 
-`Impl.*` mirror what gotranx does today (slot of a store = running counter over the
-sorted assignments; `state_index` = enumeration of `sorted_states()` computed *without*
-removal; unused filter = "mentioned by any assignment").  They produce IR programs whose
+`Impl.*` mirror what gotranx does today (slot of a store = `state_index` of the state, i.e. its position in `sorted_states()`
+computed *without* removal; unused filter = "mentioned by any assignment").  They produce IR programs whose
 expressions are the source expressions themselves.
 -/
 namespace Gx
@@ -57,19 +56,19 @@ def unpackMissing (L : Layout) : List Stmt :=
   (enumFrom 0 L.missing).map fun (i, s) => .unpack s .missing i
 
 /-- body shared by rhs and the schemes: define every sorted assignment; after a derivative,
-store `mk state deriv` into the slot given by a *running counter*. -/
-def bodyCounter (m : Model) (order : List Name) (mk : Name → Name → Expr → List Stmt × Expr) :
-    Nat → List Name → List Stmt
-  | _, [] => []
-  | k, x :: rest =>
+store `mk state deriv` into the slot `state_index` reports for its state
+(position in `sorted_states()`, which is computed without removal). -/
+def bodySlots (m : Model) (L : Layout) (mk : Name → Name → Expr → List Stmt × Expr) : List Name → List Stmt
+  | [] => []
+  | x :: rest =>
     match m.rhsOf x with
-    | none => bodyCounter m order mk k rest
+    | none => bodySlots m L mk rest
     | some e =>
       match m.stateOfDeriv x with
-      | none => .define x e :: bodyCounter m order mk k rest
+      | none => .define x e :: bodySlots m L mk rest
       | some s =>
         let (pre, v) := mk s x e
-        (.define x e :: pre) ++ [.store k v] ++ bodyCounter m order mk (k + 1) rest
+        (.define x e :: pre) ++ [.store ((slotOf L.state s).getD 0) v] ++ bodySlots m L mk rest
 
 /-- `CodeGenerator.rhs` -/
 def genRhs (m : Model) (π : DepOrder) (removeUnused : Bool) : Option (List Stmt) := do
@@ -78,7 +77,7 @@ def genRhs (m : Model) (π : DepOrder) (removeUnused : Bool) : Option (List Stmt
   let used := mentioned m
   let keep : Name → Bool := fun x => !removeUnused || used.contains x
   pure (unpackStates L keep ++ unpackParams L keep ++ unpackMissing L ++
-    bodyCounter m order (fun _ d _ => ([], .var d)) 0 order)
+    bodySlots m L (fun _ d _ => ([], .var d)) order)
 
 /-- `CodeGenerator.monitor_values` (states always unpacked, no removal in the body) -/
 def genMonitor (m : Model) (π : DepOrder) (removeUnused : Bool) : Option (List Stmt) := do
@@ -101,7 +100,7 @@ def genEuler (m : Model) (π : DepOrder) (removeUnused : Bool) : Option (List St
   let used := mentioned m
   let keep : Name → Bool := fun x => !removeUnused || used.contains x
   pure (unpackStates L (fun _ => true) ++ unpackParams L keep ++ unpackMissing L ++
-    bodyCounter m order (fun s d _ => ([], eulerStore s d)) 0 order)
+    bodySlots m L (fun s d _ => ([], eulerStore s d)) order)
 
 end Impl
 end Gx
